@@ -1,6 +1,7 @@
 import Golib.Model.C17Strs
 import Golib.Model.C17Gram
 import Golib.Model.C17Utf8Tie
+import Golib.Model.C17Large
 
 /-
 Driver of the C17 section of the oracle.
@@ -18,6 +19,14 @@ Every op line is one call on the subject string and is independent of the others
   round <bool>                CamelCaseToSnake(SnakeToCamelCase(s, firstUp))
   isident                     s ∈ [a-z][a-z0-9]*(_[a-z][a-z0-9]*)*  (the grammar of the round-trip
                               theorem; compared with the harness's regexp, not with /repo)
+
+Header `@ C17 L <hex>`: LARGE subject (1 000 – 100 000 runes), same op grammar.  The subject is
+decoded once; for a valid UTF-8 subject the ops are answered by the linear rune-slice
+definitions of `Golib/Model/C17Large.lean` (equal to the cursor models by `c17_large_eq_model`);
+`len`, `subd`, `ucfirst`, `lcfirst` always by the (linear) cursor model.  What has no linear
+evaluation answers `skip` (invalid subject, invalid mask, negative argument, non-ASCII
+subject for the case converters); the harness prints `skip` in exactly these situations
+(after making the call, so that a panic is still seen).
 
 Header `@ C17 utf8`: the exhaustive tie of the shared UTF-8 prelude to Go's `unicode/utf8`
 (no call into /repo; see `Golib/Model/C17Utf8Tie.lean` for its operations).
@@ -63,12 +72,54 @@ def runOp (s : List Nat) (ts : List String) : String :=
     | none => "bad-op"
   | _ => "bad-op"
 
+def runOpL (s : List Nat) (ok : Bool) (rs : List Int) (ascii : Bool) (ts : List String) : String :=
+  match ts with
+  | ["len"] => toString (len s)
+  | ["subd", n] =>
+    match n.toInt? with
+    | some n => showRes (subByDisplay s n)
+    | none => "bad-op"
+  | ["ucfirst"] => showRes (ucFirst s)
+  | ["lcfirst"] => showRes (lcFirst s)
+  | ["sub", a, b] =>
+    match a.toInt?, b.toInt? with
+    | some a, some b => if ok ∧ 0 ≤ a ∧ -1 ≤ b then hex (subL rs a b) else "skip"
+    | _, _ => "bad-op"
+  | ["mask", m, a, b] =>
+    match unhex m, a.toInt?, b.toInt? with
+    | some m, some a, some b =>
+      if ok ∧ valid m ∧ 0 ≤ a ∧ 0 ≤ b then hex (maskL s rs (runes m) a.toNat b.toNat) else "skip"
+    | _, _, _ => "bad-op"
+  | ["rev"] => if ok then hex (revL rs) else "skip"
+  | ["remove", set] =>
+    match unhex set with
+    | some set => if ok then (let q := runes set; hex (removeL rs fun r => q.contains r)) else "skip"
+    | none => "bad-op"
+  | ["s2c", b] =>
+    match parseBool? b with
+    | some b => if ascii then hex (snakeL s b false) else "skip"
+    | none => "bad-op"
+  | ["c2s"] => if ascii then hex (camelL s false) else "skip"
+  | ["round", b] =>
+    match parseBool? b with
+    | some b => if ascii then hex (camelL (snakeL s b false) false) else "skip"
+    | none => "bad-op"
+  | _ => "bad-op"
+
 /-- Entry point of the C17 section of the oracle: header tokens after `@ C17`. -/
 def runCase (hdr : List String) (ops : List String) : List String :=
   match hdr with
   | ["s", h] =>
     match unhex h with
     | some s => "ok" :: ops.map fun l => runOp s (toks l)
+    | none => "bad-op" :: ops.map fun _ => "bad-op"
+  | ["L", h] =>
+    match unhex h with
+    | some s =>
+      let ok := valid s
+      let rs := runes s
+      let ascii := s.all (· < 0x80)
+      "ok" :: ops.map fun l => runOpL s ok rs ascii (toks l)
     | none => "bad-op" :: ops.map fun _ => "bad-op"
   | ["utf8"] => Tie.runCase ops
   | _ => "bad-op" :: ops.map fun _ => "bad-op"
